@@ -726,6 +726,52 @@ func testRegistry(rt *rapid.T, st *RunStats) {
 			register()
 			cls["locked-registration-rolled-back"] = true
 		},
+		"relFirstUse": func(t *rapid.T) {
+			// the first use of a relation type in this world is a Rel[T] argument of an ID-based call: the type is
+			// registered by that call and gets the next ID
+			var cand []int
+			for _, ti := range []int{comps.IR1, comps.IR2, comps.IR3} {
+				if _, ok := m.ids[ti]; !ok {
+					cand = append(cand, ti)
+				}
+			}
+			if len(cand) == 0 || len(m.order) == 0 || len(m.order) >= max || next >= len(perm) {
+				t.Skip()
+			}
+			ti := rapid.SampledFrom(cand).Draw(t, "relType")
+			for k := next; k < len(perm); k++ {
+				if perm[k] == ti {
+					perm[k], perm[next] = perm[next], perm[k]
+					break
+				}
+			}
+			if perm[next] != ti {
+				t.Skip()
+			}
+			tgt := w.NewEntity()
+			rel := comps.RelOf(ti, tgt)
+			p := try(func() {
+				q := ecs.NewUnsafeFilter(w, mkID(0)).Query(rel)
+				q.Close()
+			})
+			w.RemoveEntity(tgt)
+			if p != nil {
+				failf("registry|rel-first-use|panic", "an ID-based query whose Rel[T] argument names a type for the first time panicked: %v", p)
+			}
+			if w.IsLocked() {
+				failf("registry|rel-first-use|locked", "the world is locked after the query was closed")
+			}
+			if n := len(ecs.ComponentIDs(w)); n != len(m.order)+1 {
+				failf("registry|rel-first-use|count", "after the first use of %v as Rel[T] argument %d component IDs are registered, expected %d", regType(ti), n, len(m.order)+1)
+			}
+			if id := ecs.TypeID(w, regType(ti)); int(id.Index()) != len(m.order) {
+				failf("registry|rel-first-use|id", "type %v, first used as Rel[T] argument, maps to ID %d, expected %d", regType(ti), id.Index(), len(m.order))
+			}
+			m.ids[ti] = uint8(len(m.order))
+			m.order = append(m.order, ti)
+			next++
+			cls["relation-type-first-used-as-rel-argument"] = true
+		},
 		"use": func(t *rapid.T) {
 			if len(m.order) == 0 {
 				t.Skip()
